@@ -96,7 +96,7 @@ impl Scenario for IoFault {
     }
     fn total(&self, tier: Tier) -> u64 {
         match tier {
-            Tier::Quick => 3_000,
+            Tier::Quick => 6_000,
             Tier::Thorough => 60_000,
         }
     }
@@ -129,6 +129,7 @@ impl Scenario for IoFault {
                 let src_lens: Vec<usize> = sources.iter().map(|s| source_entries(&s.image()).len()).collect();
                 let cfg = GenCfg { max_entries: 3, max_content, methods: METHODS.to_vec(), extra: true, aligned: true, enc: true, n_sources: sources.len(), src_lens, append: true, long_names: false, comment_max: 30, misc_ops: true };
                 let mut ops = gen_program(&mut r, &cfg);
+                tame_levels(&mut ops);
                 if rs.chance(1, 5) {
                     let mut l = gen_layout(&mut r, 3, 300, false);
                     l.trailing = 0;
@@ -140,7 +141,9 @@ impl Scenario for IoFault {
             k => {
                 let src = if rs.chance(1, 2) {
                     let cfg = GenCfg { max_entries: 3, max_content, methods: METHODS.to_vec(), extra: true, aligned: false, enc: k == 1, n_sources: 0, src_lens: vec![], append: false, long_names: false, comment_max: 30, misc_ops: false };
-                    Source::Prog(gen_program(&mut r, &cfg))
+                    let mut ops = gen_program(&mut r, &cfg);
+                    tame_levels(&mut ops);
+                    Source::Prog(ops)
                 } else {
                     let mut l = gen_layout(&mut r, 3, max_content, k == 1);
                     l.trailing = 0;
